@@ -64,6 +64,18 @@ CLAIMED = {
     design_ref="DESIGN.md section 5 C11",
     note="Trusted: TLC, recording driver. Plans are steered, not forced; NULL keys not exercised.",
     technique="TLA+ contract spec as oracle; TLC trace validation of recorded join queries under varying statistics"),
+ "C14": dict(
+    category="model_checking",
+    text="Every statement event of the SQL drivers carries the vector of pinned pages before and after it; TLC (SqlModelTrace.PinCheck) requires the set of pinned pages to be unchanged by every statement that returned - successful, rejected by the planner, or aborted by a lock conflict - while the same trace is validated against SqlModel. Workloads in fixed pools: scans and index scans, inserts that allocate heap pages, relocating updates, deletes, hash / index / nested-loop joins, rolled-back transactions, statements aborted by a second transaction's row locks; a leak of one frame per statement also shows as pool exhaustion (C14.fail).",
+    design_ref="DESIGN.md section 5 C14",
+    note="Trusted: TLC, recording driver (GetPages() pin counts). Set of pinned pages compared (pin-count growth on the permanently pinned skip-list start node is measured and reported, not a violation). B-tree tables excluded (the embedded B-tree pins its own pages on first use).",
+    technique="TLA+ trace validation: pin-set balance evaluated by TLC on every recorded statement of the SQL workloads"),
+ "C17": dict(
+    category="model_checking",
+    text="Multimap (set of (key, row id) entries with Point / Range answers) is the oracle. The index objects of real tables (skip list, unique skip list, B-tree, hash; int / float / varchar keys incl. extremes, denormals, empty and 380-byte strings, hot duplicate keys, adjacent keys) are driven through the index.Index interface with insert-heavy then delete-heavy phases and key-changing updates; every 50 operations a battery of point lookups and full / bounded / half-open ordered scans; TLC validates every answer against Multimap.",
+    design_ref="DESIGN.md section 5 C17",
+    note="Sequential clause only so far: the concurrent clause (atomicity of completed operations under concurrent use) is not yet decided by this check. One open known finding (unique skip list over integer keys).",
+    technique="TLA+ contract spec as oracle; TLC trace validation of recorded index-container operation sequences"),
 }
 
 NOT_APPLICABLE = {
